@@ -57,7 +57,7 @@ def orth_post(ctx, old, obj, nrm, mode, is_mpo, in_situ=False):
         ctx.ok(f'{tag}.boundary-charges-kept', np.array_equal(obj.qD[0], old['qD0']) and np.array_equal(obj.qD[-1], old['qDL']),
                f'boundary quantum numbers changed: {old["qD0"]},{old["qDL"]} -> {obj.qD[0]},{obj.qD[-1]}', detail, s)
     else:
-        ctx.ok(f'{tag}.zero-object-factor-zero', nrm == 0, f'zero object but factor {nrm}', detail, s)
+        ctx.ok(f'{tag}.zero-object-factor-zero', nrm <= 100 * noise, f'zero object (tensor scale {old["scale"]:.2e}) but factor {nrm}', detail, s)
     D = [len(q) for q in obj.qD]
     dd = len(obj.qd) ** (2 if is_mpo else 1)
     if mode == 'left':
